@@ -80,7 +80,7 @@ def _std_paths(ttext):
     return ttext.replace("Vec<Vec<u8>>", "std::vec::Vec<std::vec::Vec<u8>>").replace("vec![", "std::vec![")
 
 
-def _replay_failure(stage, h, res, log_path, jobs):
+def _replay_failure(stage, h, res, log_path, jobs, prop=None):
     """Concrete playback of a failing harness and native re-run.
     Returns dict(confirmed, file, detail)."""
     detail = {"harness": h.name}
@@ -117,13 +117,14 @@ def _replay_failure(stage, h, res, log_path, jobs):
     tname, ttext, msg = hit
     detail["test"] = tname
     detail["native_panic"] = msg[-300:]
-    os.makedirs(os.path.join(REPLAYS, h.props[0]), exist_ok=True)
-    path = os.path.join(REPLAYS, h.props[0], h.name + ".rs")
+    pdir = prop or h.props[0]
+    os.makedirs(os.path.join(REPLAYS, pdir), exist_ok=True)
+    path = os.path.join(REPLAYS, pdir, h.name + ".rs")
     with open(path, "w") as fh:
         fh.write("// replay for harness %s (module %s): concrete values found by CBMC, re-run natively\n" % (h.name, h.module))
         fh.write("// failed obligations: %s\n" % "; ".join(labels))
         fh.write("// native (dev profile) panic: %s\n" % msg[-300:].replace("\n", " "))
-        fh.write("// re-run: ./check %s --replay %s\n" % (h.props[0], path))
+        fh.write("// re-run: ./check %s --replay %s\n" % (pdir, path))
         fh.write("// @module %s\n// @test %s\n" % (h.module, tname))
         fh.write(_std_paths(ttext) + "\n")
     return {"confirmed": True, "file": path, "detail": detail}
@@ -241,7 +242,7 @@ def run(prop, tier, seed, keep=False, only=None, jobs=16):
                       "detail": {"harness": name, "not_replayed": "same failed obligations as %s" % first["detail"]["harness"]}}
             else:
                 # fail: replay natively before believing it
-                rp = _replay_failure(stage, h, res, log_path, jobs)
+                rp = _replay_failure(stage, h, res, log_path, jobs, prop)
                 replayed_sig.setdefault(sig, []).append(rp)
                 replays.append(rp)
             if not rp["confirmed"]:
